@@ -49,12 +49,14 @@ struct Place {
   int top = 0, bot = 0, lw = 0, rw = 0, slack = 0;
   int fill = 0;  // 0 zeros, 1 ones, 2 junk
   u64 fseed = 0;
+  bool nest = false;  // the view is a window of a window of the parent (offsets accumulate)
 };
 Place place_from(const Case &c, const std::string &p);
 
 struct Opnd {
   mzd_t *M = nullptr;       // the matrix handed to the library
   mzd_t *parent = nullptr;  // non-null iff view
+  mzd_t *mid = nullptr;     // intermediate window when the view is nested
   Place pl;
   int m = 0, n = 0;
   std::vector<u64> snap;  // raw snapshot (parent if view, else M) taken by snapshot()
@@ -66,6 +68,8 @@ struct Opnd {
     release();
     M = o.M;
     parent = o.parent;
+    mid = o.mid;
+    o.mid = nullptr;
     pl = o.pl;
     m = o.m;
     n = o.n;
